@@ -10,6 +10,11 @@ JOBS = [
     dict(job=('specs.tr_units', 'w_out', {'mode': 'recording'}), props=['C01', 'C02', 'C03', 'C04', 'C05', 'C09'], cases='w_out'),
     dict(job=('specs.tr_units', 'w_op_recording', {}), props=['C03', 'C04', 'C05', 'C09', 'C17', 'C18'], cases='w_op'),
     dict(job=('specs.tr_units', 'w_op_passthrough', {'mode': 'disabled'}), props=['C04']),
+    # the input / output wrappers when NOT intercepting: idle recorder, or a call nested inside another interception
+    dict(job=('specs.tr_units', 'w_passthrough', {'unit': 'in', 'mode': 'idle'}), props=['C04', 'C09']),
+    dict(job=('specs.tr_units', 'w_passthrough', {'unit': 'out', 'mode': 'idle'}), props=['C04', 'C09', 'C03']),
+    dict(job=('specs.tr_units', 'w_passthrough', {'unit': 'in', 'mode': 'nested'}), props=['C04', 'C09']),
+    dict(job=('specs.tr_units', 'w_passthrough', {'unit': 'out', 'mode': 'nested'}), props=['C04', 'C09', 'C03']),
     # statement-level thread interference (thorough tier only: ~10 minutes)
     dict(job=('specs.tr_units', 'w_in_recording_interference', {'case': {'dh': 'none', 'res': 'none', 'fb': 'none'}}), props=['C04'], tier='thorough'),
     dict(job=('specs.tr_units', 'w_op_playback', {}), props=['C01', 'C02', 'C03']),
@@ -82,7 +87,7 @@ JOBS = [
     dict(job=('specs.studio', 'play', {'mode': 'lookup'}), props=['C19']),
     dict(job=('specs.studio', 'find_matching', {}), props=['C19', 'C10', 'C18']),
     # ---- key functions
-    dict(job=('specs.keys', 'input_key', {}), props=['C06']),
+    dict(job=('specs.keys', 'input_key', {}), props=['C06', 'C01', 'C02']),
     dict(job=('specs.keys', 'output_key', {}), props=['C03', 'C06']),
     dict(job=('specs.keys', 'format_alias', {}), props=['C06']),
     # ---- playback/tape_cassette.py: metadata filter matching
